@@ -26,6 +26,49 @@ import (
 // definition-backed value are violations. Helper parameters and results are
 // followed within the module.
 func taskStorageWrites(c *an.Ctx, rule string) {
+	protectedStorageWrites(c, rule, protectedStorage{
+		owner:  func(a *ssa.FieldAddr) bool { return an.TypeIs(a.X.Type(), "pkg/task", "Task") },
+		what:   "task",
+		whyBad: "the per-stage copy of a task shares its slices and maps with the task in the configuration, so every other stage, pipeline or direct run that uses the task sees the write",
+	})
+}
+
+// protectedStorage names a family of slices and maps that only their owner may write in place.
+type protectedStorage struct {
+	owner  func(a *ssa.FieldAddr) bool // the fields the storage is reachable from
+	what   string                      // "task", "graph"
+	whyBad string
+	exempt func(f *ssa.Function) bool // the functions that maintain the storage
+}
+
+// graphStorageWrites: the adjacency lists of an execution graph (from / to) are what the scheduler's gate, the
+// cycle check and the graph commands read; only the functions that build the graph (reached from AddStage and the
+// constructor) write them. A filter, a removal or an append in place on a list taken from them — in a String
+// method, a debug helper — silently drops or duplicates declared edges.
+func graphStorageWrites(c *an.Ctx, rule string) {
+	p := c.P
+	var roots []*ssa.Function
+	for _, name := range []string{"AddStage", "addEdge", "addNode"} {
+		if f := p.Func("pkg/scheduler", "ExecutionGraph", name); f != nil {
+			roots = append(roots, f)
+		}
+	}
+	if f := p.Func("pkg/scheduler", "", "NewExecutionGraph"); f != nil {
+		roots = append(roots, f)
+	}
+	builders := p.Reach(roots, func(e an.CallEdge) bool { return e.Kind == an.EdgeCall && inPkgs("pkg/scheduler")(e.Callee) })
+	protectedStorageWrites(c, rule, protectedStorage{
+		owner: func(a *ssa.FieldAddr) bool {
+			tf := an.TypeField(a)
+			return tf == "ExecutionGraph.from" || tf == "ExecutionGraph.to"
+		},
+		what:   "graph",
+		whyBad: "the lists are the graph's own adjacency lists: an edge removed, shifted or duplicated there is an edge the dependency gate, the cycle check and the graph commands no longer see as declared",
+		exempt: func(f *ssa.Function) bool { _, ok := builders[f]; return ok },
+	})
+}
+
+func protectedStorageWrites(c *an.Ctx, rule string, spec protectedStorage) {
 	p := c.P
 	isRef := func(t types.Type) bool {
 		switch t.Underlying().(type) {
@@ -64,7 +107,7 @@ func taskStorageWrites(c *an.Ctx, rule string) {
 				}
 				switch a := x.X.(type) {
 				case *ssa.FieldAddr:
-					if !an.TypeIs(a.X.Type(), "pkg/task", "Task") {
+					if !spec.owner(a) {
 						continue
 					}
 					// a field of a task the function builds itself, holding what the function stored there
@@ -85,7 +128,7 @@ func taskStorageWrites(c *an.Ctx, rule string) {
 					}
 				}
 			case *ssa.Lookup:
-				if backed(x.X, depth+1) {
+				if backed(x.X, depth+1) || holdsShared[an.Resolve(x.X)] {
 					return true
 				}
 			case *ssa.Extract:
@@ -95,7 +138,7 @@ func taskStorageWrites(c *an.Ctx, rule string) {
 						return true
 					}
 				}
-				if lk, ok := x.Tuple.(*ssa.Lookup); ok && x.Index == 0 && backed(lk.X, depth+1) {
+				if lk, ok := x.Tuple.(*ssa.Lookup); ok && x.Index == 0 && (backed(lk.X, depth+1) || holdsShared[an.Resolve(lk.X)]) {
 					return true
 				}
 				if call, ok := x.Tuple.(*ssa.Call); ok {
@@ -129,6 +172,14 @@ func taskStorageWrites(c *an.Ctx, rule string) {
 		changed := false
 		for _, f := range fns {
 			an.EachInstr(f, func(in ssa.Instruction) {
+				// a local map or slice that is given a protected list as an element holds shared storage
+				if mu, isMU := in.(*ssa.MapUpdate); isMU {
+					if isRef(mu.Value.Type()) && backed(mu.Value, 0) && !holdsShared[an.Resolve(mu.Map)] && !backed(mu.Map, 0) {
+						holdsShared[an.Resolve(mu.Map)] = true
+						changed = true
+					}
+					return
+				}
 				call, ok := in.(*ssa.Call)
 				if !ok {
 					return
@@ -173,20 +224,23 @@ func taskStorageWrites(c *an.Ctx, rule string) {
 	}
 	n, nBad := 0, 0
 	for _, f := range fns {
+		if spec.exempt != nil && spec.exempt(f) {
+			continue
+		}
 		an.EachInstr(f, func(in ssa.Instruction) {
 			switch x := in.(type) {
 			case *ssa.MapUpdate:
 				n++
 				if backed(x.Map, 0) {
 					nBad++
-					c.Bad(rule, an.Short(f)+":map-write(task)", x.Pos(), "%s writes an entry of a map that belongs to a task it did not build (%s): the per-stage copy of a task shares its maps with the task in the configuration, so every other stage, pipeline or direct run that uses the task sees the write", an.Short(f), an.Prov(x.Map))
+					c.Bad(rule, an.Short(f)+":map-write("+spec.what+")", x.Pos(), "%s writes an entry of a map that belongs to a %s it did not build (%s): %s", an.Short(f), spec.what, an.Prov(x.Map), spec.whyBad)
 				}
 			case *ssa.Call:
 				if b, ok := x.Call.Value.(*ssa.Builtin); ok && b.Name() == "append" && len(x.Call.Args) > 0 {
 					n++
 					if backed(x.Call.Args[0], 0) {
 						nBad++
-						c.Bad(rule, an.Short(f)+":append(task)", x.Pos(), "%s appends to a slice that belongs to a task it did not build (%s): with spare capacity — always so after a re-slice like s[:0] — the append overwrites elements of the array the configured task still uses", an.Short(f), an.Prov(x.Call.Args[0]))
+						c.Bad(rule, an.Short(f)+":append("+spec.what+")", x.Pos(), "%s appends to a slice that belongs to a %s it did not build (%s): with spare capacity — always so after a re-slice like s[:0] or s[:i] — the append overwrites elements of the array the %s still uses; %s", an.Short(f), spec.what, an.Prov(x.Call.Args[0]), spec.what, spec.whyBad)
 					}
 				}
 			case *ssa.Store:
@@ -197,12 +251,12 @@ func taskStorageWrites(c *an.Ctx, rule string) {
 				n++
 				if backed(ia.X, 0) {
 					nBad++
-					c.Bad(rule, an.Short(f)+":element-write(task)", x.Pos(), "%s writes an element of a slice that belongs to a task it did not build (%s): the per-stage copy of a task shares its slices with the task in the configuration", an.Short(f), an.Prov(ia.X))
+					c.Bad(rule, an.Short(f)+":element-write("+spec.what+")", x.Pos(), "%s writes an element of a slice that belongs to a %s it did not build (%s): %s", an.Short(f), spec.what, an.Prov(ia.X), spec.whyBad)
 				}
 			}
 		})
 	}
 	if nBad == 0 {
-		c.OK(rule, "module:task-storage", token.NoPos, "%d element/map writes in the module: none into a slice or map reachable from a task the writer did not build", n)
+		c.OK(rule, "module:"+spec.what+"-storage", token.NoPos, "%d element/map writes in the module: none into a slice or map reachable from a %s the writer did not build", n, spec.what)
 	}
 }
